@@ -1,0 +1,77 @@
+//go:build verif
+
+package inmem
+
+import (
+	"time"
+
+	"github.com/acquirecloud/golibs/kvs"
+)
+
+// Read-only views of the in-memory storage for the verification harness
+// (build tag verif only). All of them take the service lock, none of them
+// goes through get(), so they never drop an expired record and never wake a
+// waiter.
+
+// VerifWaiters returns the number of registered waiters per key of the waiter
+// table (verChange), read under the lock. It returns nil if s is not the
+// in-memory storage.
+func VerifWaiters(s kvs.Storage) map[string]int {
+	svc, ok := s.(*service)
+	if !ok {
+		return nil
+	}
+	svc.lock.Lock()
+	defer svc.lock.Unlock()
+	res := make(map[string]int, len(svc.verChange))
+	for k, w := range svc.verChange {
+		res[k] = w.waiters
+	}
+	return res
+}
+
+// VerifWaiterChans returns the done channel of every entry of the waiter table
+// (receive-only, used as an identity: the harness keeps the values alive and
+// compares them with ==), read under the lock.
+func VerifWaiterChans(s kvs.Storage) map[string]<-chan struct{} {
+	svc, ok := s.(*service)
+	if !ok {
+		return nil
+	}
+	svc.lock.Lock()
+	defer svc.lock.Unlock()
+	res := make(map[string]<-chan struct{}, len(svc.verChange))
+	for k, w := range svc.verChange {
+		res[k] = w.done
+	}
+	return res
+}
+
+// VerifRecVersion is the raw content of one stored record: its version and its
+// expiration instant (nil if none).
+type VerifRecVersion struct {
+	Version   string
+	ExpiresAt *time.Time
+}
+
+// VerifRecords returns version and expiration of every record that is
+// physically in the records map, including expired records that no method has
+// dropped yet, read under the lock.
+func VerifRecords(s kvs.Storage) map[string]VerifRecVersion {
+	svc, ok := s.(*service)
+	if !ok {
+		return nil
+	}
+	svc.lock.Lock()
+	defer svc.lock.Unlock()
+	res := make(map[string]VerifRecVersion, len(svc.recs))
+	for k, r := range svc.recs {
+		v := VerifRecVersion{Version: r.Version}
+		if r.ExpiresAt != nil {
+			t := *r.ExpiresAt
+			v.ExpiresAt = &t
+		}
+		res[k] = v
+	}
+	return res
+}
